@@ -426,3 +426,111 @@ func (e *Env) SendUDP(b []byte) bool {
 	}
 	return true
 }
+
+// CheckInv runs the implementation's own CheckInvariants and records whether
+// it panicked.
+func (e *Env) CheckInv() string {
+	p := catch(func() { e.Srv.CheckInvariants() })
+	e.T.Emit(J{"a": "CheckInv", "panic": p})
+	return p
+}
+
+// QueryEquipment fetches /equipment and records the decoded reply.
+func (e *Env) QueryEquipment() {
+	st, body := e.Get("/api/v1/equipment")
+	var er server.EquipmentResponse
+	eq := []J{}
+	if st == 200 && json.Unmarshal(body, &er) == nil {
+		ids := []int{}
+		for id := range er.EquipmentDetails {
+			ids = append(ids, int(id))
+		}
+		sortInts(ids)
+		for _, id := range ids {
+			eq = append(eq, e.Auth(ToRawAuth(er.EquipmentDetails[uint32(id)])))
+		}
+	}
+	e.T.Emit(J{"a": "EquipmentResp", "status": st, "equip": eq})
+}
+
+func sortInts(a []int) {
+	for i := 1; i < len(a); i++ {
+		for j := i; j > 0 && a[j-1] > a[j]; j-- {
+			a[j-1], a[j] = a[j], a[j-1]
+		}
+	}
+}
+
+// ServerSpec describes an authorized-server entry to build.
+type ServerSpec struct {
+	Key    string
+	Banned bool
+	Loc    string
+	Ports  [3]uint16
+	Signer string
+}
+
+func (e *Env) BuildServer(s ServerSpec) server.AuthorizedServer {
+	r := RawServer{PublicKey: e.KR.Gen(s.Key), Banned: s.Banned, Location: s.Loc, HttpPort: s.Ports[0], TcpPort: s.Ports[1], UdpPort: s.Ports[2]}
+	if s.Signer != "" {
+		r.Sig = e.SR.Sign(s.Signer, RefServerSigningBytes(r))
+	}
+	return server.AuthorizedServer{PublicKey: r.PublicKey, Banned: r.Banned, Location: r.Location, HttpPort: r.HttpPort, TcpPort: r.TcpPort, UdpPort: r.UdpPort, GCAAuthorization: r.Sig}
+}
+
+// AuthorizeServer posts a server entry.
+func (e *Env) AuthorizeServer(as server.AuthorizedServer) int {
+	st, _ := e.PostJSON("/api/v1/authorized-servers", as)
+	e.T.Emit(J{"a": "AuthorizeServerResp", "as": e.Server(ToRawServer(as)), "status": st})
+	return st
+}
+
+// QueryServers fetches the authorized server list.
+func (e *Env) QueryServers() {
+	st, body := e.Get("/api/v1/authorized-servers")
+	var r server.AuthorizedServersResponse
+	l := []J{}
+	if st == 200 && json.Unmarshal(body, &r) == nil {
+		l = e.Servers(rawServers(r.AuthorizedServers))
+	}
+	e.T.Emit(J{"a": "ServersResp", "status": st, "servers": l})
+}
+
+// BuildMigration builds a migration order for device key dev to newGCA,
+// outer signature by signer, each new server signed by innerSigner.
+func (e *Env) BuildMigration(dev, newGCA string, newID uint32, servers []ServerSpec, signer string) server.EquipmentMigration {
+	m := RawMigration{Equipment: e.KR.Gen(dev), NewGCA: e.KR.Gen(newGCA), NewShortID: newID}
+	em := server.EquipmentMigration{Equipment: m.Equipment, NewGCA: m.NewGCA, NewShortID: newID}
+	for _, s := range servers {
+		as := e.BuildServer(s)
+		em.NewServers = append(em.NewServers, as)
+		m.NewServers = append(m.NewServers, ToRawServer(as))
+	}
+	if signer != "" {
+		em.Signature = e.SR.Sign(signer, RefMigrationSigningBytes(m))
+	}
+	return em
+}
+
+func (e *Env) Migrate(m server.EquipmentMigration) int {
+	st, _ := e.PostJSON("/api/v1/equipment-migrate", m)
+	e.T.Emit(J{"a": "MigrateResp", "m": e.Migration(ToRawMigration(m)), "status": st})
+	return st
+}
+
+// Restart closes the server and starts it again on the same directory.
+func (e *Env) Restart() error {
+	e.Close()
+	return e.Start()
+}
+
+// RegisterQuiet posts a registration and returns the status without
+// recording a reply event (used for concurrent batches).
+func (e *Env) RegisterQuiet(k, signer string) int {
+	gr := server.GCARegistration{GCAKey: e.KR.Pub(k)}
+	if signer != "" {
+		gr.Signature = e.SR.Sign(signer, RefRegistrationSigningBytes(e.KR.Pub(k)))
+	}
+	st, _ := e.PostJSON("/api/v1/register-gca", gr)
+	return st
+}
